@@ -4,12 +4,14 @@ import time
 from vlib.common import finish
 from vlib.bounded import Bounded
 from harness import c04 as driver
+from checks._proof import proof_subobligations
 
 PROP = 'C04'
 
 
 def run():
     t0 = time.time()
+    pv, pu, pe, ppart, passumed = proof_subobligations(PROP, ['contracts.c04_spans'], ['ak.llparser'])
     b = Bounded(PROP, 'harness.c04')
     driver.run(b)
     n = driver.max_lines(b.tier)
@@ -31,7 +33,13 @@ def run():
         exhaustive=True,
         extra={'space_size': driver.space_size(b.tier), 'shapes': driver.ALL_SHAPES,
                'configurations': driver.CFG_ORDER})
-    return finish(PROP, 'exploration', b.violations(), [], b.errors, cov,
+    cov.update(ppart)
+    _seen, _viol = set(), []
+    for _v in pv + b.violations():
+        if _v.key not in _seen:
+            _seen.add(_v.key)
+            _viol.append(_v)
+    return finish(PROP, 'exploration', _viol, pu, pe + b.errors, cov, passumed +
                   ["token patterns of the explored configurations match non-empty text only",
                    "lines of a list-of-lines text carry no line terminator (as get_orig_text joins them with one)",
                    "the text has at least one line (the empty list is explored, failures on it are diagnostics only)",
